@@ -192,3 +192,61 @@ Proof.
   all: try (eapply or_float_total; apply rchecked_addsub_spec; try lia; auto using rok_int, rwf_rok).
   all: try (eapply or_float_total; apply rchecked_mul_spec; try lia; auto using rok_int, rwf_rok).
 Qed.
+
+(* ------------------------------------------------ quotient / remainder on integers *)
+Definition both_rational (a b : num) : bool :=
+  match a, b with Rational _ _, Rational _ _ => true | _, _ => false end.
+
+Lemma int_of_rational n d z : int_of (Rational n d) = Some z -> d = 1 /\ z = n.
+Proof. cbn. destruct (Z.eqb_spec d 1); intros H; inversion H; auto. Qed.
+
+Lemma ris_integer_1 n : ris_integer (n, 1) = true.
+Proof. reflexivity. Qed.
+
+Lemma i32_not_i64min n d : rwfb n d = true -> n <> imin W64.
+Proof.
+  intros H. apply rwfb_rwf in H. destruct (rwf_rok _ _ H) as [Hn _]. cbn [fst] in Hn.
+  apply in_int_iff in Hn. unfold imin, imax, W64 in *. change (32 - 1) with 31 in Hn. change (64 - 1) with 63.
+  assert (2 ^ 31 < 2 ^ 63) by (apply Z.pow_lt_mono_r; lia). lia.
+Qed.
+
+Theorem quotient_exact p a b za zb :
+  wfb a = true -> wfb b = true ->
+  int_of a = Some za -> int_of b = Some zb -> zb <> 0 -> both_rational a b = false ->
+  exists r, num_quotient p a b = Ok (Some r) /\ int_of r = Some (Z.quot za zb).
+Proof.
+  intros Wa Wb Ia Ib Nz Nr.
+  destruct a as [l|l|ln ld|fl]; destruct b as [r0|r0|rn rd|fr]; try discriminate;
+    try (apply int_of_rational in Ia; destruct Ia; subst);
+    try (apply int_of_rational in Ib; destruct Ib; subst);
+    cbn [int_of] in *; try (inversion Ia; subst); try (inversion Ib; subst);
+    cbn [num_quotient]; rewrite ?ris_integer_1, ?rto_integer_1; cbn [bind];
+    unfold fix_quot, some_big, some_fix, big_div;
+    repeat match goal with |- context [Z.eqb ?x 0] => destruct (Z.eqb_spec x 0); try contradiction end;
+    cbn [orb bind].
+  all: try (eexists; split; [reflexivity|reflexivity]).
+  all: try (match goal with |- context [andb ?c ?d] => destruct (andb c d) end; cbn [bind]; eexists; split; reflexivity).
+  (* Rational n/1 by a Fixnum: the dividend is an i32 *)
+  cbn [wfb] in Wa. rewrite idiv_ok by (try lia; left; eapply i32_not_i64min; eassumption).
+  cbn [bind]. eexists; split; reflexivity.
+Qed.
+
+Theorem remainder_exact p a b za zb :
+  wfb a = true -> wfb b = true ->
+  int_of a = Some za -> int_of b = Some zb -> zb <> 0 ->
+  (forall n d, b <> Rational n d) ->
+  exists r, num_rem p a b = Ok (Some r) /\ int_of r = Some (Z.rem za zb).
+Proof.
+  intros Wa Wb Ia Ib Nz NR.
+  destruct a as [l|l|ln ld|fl]; destruct b as [r0|r0|rn rd|fr]; try discriminate;
+    try (exfalso; eapply NR; reflexivity);
+    try (apply int_of_rational in Ia; destruct Ia; subst);
+    cbn [int_of] in *; try (inversion Ia; subst); try (inversion Ib; subst);
+    cbn [num_rem]; rewrite ?rto_integer_1; cbn [bind];
+    unfold fix_wrapping_rem, some_big, some_fix, big_rem;
+    repeat match goal with |- context [Z.eqb ?x 0] => destruct (Z.eqb_spec x 0); try contradiction end;
+    cbn [orb bind].
+  all: try (eexists; split; [reflexivity|reflexivity]).
+  cbn [wfb] in Wa. rewrite irem_ok by (try lia; left; eapply i32_not_i64min; eassumption).
+  cbn [bind]. eexists; split; reflexivity.
+Qed.
